@@ -12,8 +12,6 @@ open DSymVerif DSymVerif.Cosets DSymVerif.SpecC11 DSymVerif.SpecC13 DSymVerif.Co
 structure GroupOK (fg : FG.FundGroup) : Prop where
   /-- relators are words over the letters `±1..±n` -/
   letters : ∀ w ∈ fg.relators, ∀ x ∈ w, x ∈ allGensOf fg.genToEdge.length
-  /-- relators are empty or cyclically reduced (hypothesis of C12's `extract_valid`) -/
-  cyc : ∀ ρ ∈ fg.relators, ρ = [] ∨ FWP.CR ρ
   /-- cone words are words over the letters -/
   cones : ∀ c ∈ fg.cones, ∀ x ∈ c.1, x ∈ allGensOf fg.genToEdge.length
   /-- the node budget of the model of `coset_tables` exhausts the search tree -/
@@ -195,7 +193,7 @@ theorem constructCandidates_valid (fg : FG.FundGroup) (hg : GroupOK fg) (cands :
   split at h
   · rename_i cts hcts
     have hcore := coreTables_spec _ cts
-      (lowIndex_valid fg.genToEdge.length fg.relators Tables.candidateIndexBound nodeFuel hg.cyc hg.letters hg.fuel) hcts
+      (lowIndex_valid fg.genToEdge.length fg.relators Tables.candidateIndexBound nodeFuel hg.letters hg.fuel) hcts
     have hvalid : ∀ t ∈ cts, validTable t fg.genToEdge.length fg.relators [] = true :=
       fun t ht => isCoreOf_valid hg.letters (hcore t ht)
     split at h
@@ -216,6 +214,6 @@ theorem constructCandidates_cores (fg : FG.FundGroup) (hg : GroupOK fg) (cts : L
       (cosetTables fg.genToEdge.length fg.relators Tables.candidateIndexBound nodeFuel) = .ok cts) :
     ∀ c ∈ cts, IsCoreOf fg.genToEdge.length fg.relators Tables.candidateIndexBound c :=
   coreTables_spec _ cts
-    (lowIndex_valid fg.genToEdge.length fg.relators Tables.candidateIndexBound nodeFuel hg.cyc hg.letters hg.fuel) h
+    (lowIndex_valid fg.genToEdge.length fg.relators Tables.candidateIndexBound nodeFuel hg.letters hg.fuel) h
 
 end DSymVerif.D3
